@@ -28,11 +28,11 @@ func checkC13(c *core.Ctx, r *core.Report) {
 	r.NotCovered = "wildcard/alias expansion semantics, prefix-named indexes, whether the deleting functions that do receive the organisation use it on every structure (metadata.deleteTable drops the table entry of all tenants), data of other indexes through shared files"
 
 	orgFields := map[*types.Var]string{
-		c.Field(pkgWriter, "SegStore.OrgId"):              "SegStore",
-		c.Field(pkgWriter, "UnrotatedSegmentInfo.orgid"):  "UnrotatedSegmentInfo",
-		c.Field(pkgStructs, "SegMeta.OrgId"):              "SegMeta",
-		c.Field(pkgMetrics, "MetricsSegment.Orgid"):       "MetricsSegment",
-		c.Field(pkgStructs, "MetricsMeta.OrgId"):          "MetricsMeta",
+		c.Field(pkgWriter, "SegStore.OrgId"):             "SegStore",
+		c.Field(pkgWriter, "UnrotatedSegmentInfo.orgid"): "UnrotatedSegmentInfo",
+		c.Field(pkgStructs, "SegMeta.OrgId"):             "SegMeta",
+		c.Field(pkgMetrics, "MetricsSegment.Orgid"):      "MetricsSegment",
+		c.Field(pkgStructs, "MetricsMeta.OrgId"):         "MetricsMeta",
 	}
 
 	// ---------------------------------------------------------------- (1)
